@@ -992,11 +992,20 @@ def run_c19(chk):
             else:
                 seq.append(_spell(rng, eg.expr()))
         seq.append(rng.choice(PROBES))
+        if rng.random() < 0.3:
+            # the reserved prefix xml, as a wildcard test and in qualified names, in any order on one context
+            seq = [rng.choice(["//@xml:*", "//xml:*", "//@xml:lang", "//*[@xml:lang]", "count(//@xml:lang)", "//*[lang('en')]",
+                               "//xml:a", "name(//@xml:*)"]) for _ in range(4)] + seq
         if rng.random() < 0.4:
             # the same unprefixed name as an element test and as an attribute test on one context, with a caller default namespace
             seq = [rng.choice(["count(//@id)", "count(//id)", "//a[@a]", "count(//attribute::x | //x)", "count(//a)", "count(//@a)"])
                    for _ in range(3)] + seq
         qs.append((t, rng.choice(XP.BINDING_VARIANTS), seq))
+    xmldoc = "<r xml:lang='en'><a xml:lang='de' xml:space='preserve'>t</a><b/></r>"
+    xq_ = ["//@xml:*", "//xml:*", "//@xml:lang", "//*[@xml:lang]", "count(//@xml:lang)", "//*[lang('en')]", "name(//@xml:*)", "//@xml:space"]
+    for _ in range(12):
+        seq = [rng.choice(xq_) for _ in range(6)]
+        qs.append((xmldoc, rng.choice(XP.BINDING_VARIANTS + ["", "xml=http://www.w3.org/XML/1998/namespace"]), seq))
     h = lib.build_harness()
     one = lib.run_lines(h, [lib.req("query", t, b, *es) for t, b, es in qs], timeout=900, per_line_resume=True)
     fresh = lib.run_lines(h, [lib.req("qfresh", t, b, *es) for t, b, es in qs], timeout=900, per_line_resume=True)
@@ -1010,6 +1019,14 @@ def run_c19(chk):
         lim_ = lib.XML_CONSTS.get(const)
         if lim_:
             lims += [mk(lim_), mk(lim_ + 1), mk(lim_), mk(lim_ + 5), mk(lim_ - 1), mk(lim_)]
+    # several attributes supplied from defaults on one element (their order is the order of the declarations, every time),
+    # several declarations of one name, several notations / entities: anything that could be kept in an unordered table
+    many = "".join("%s CDATA '%s' " % (c, c.upper()) for c in "abcdefgh")
+    lims += ["<!DOCTYPE r [<!ATTLIST r %s>]><r/>" % many,
+             "<!DOCTYPE r [<!ATTLIST r %s><!ATTLIST r z CDATA 'Z' a CDATA 'again'>]><r><r b='own'/><r/></r>" % many,
+             "<!DOCTYPE r [" + "".join("<!ENTITY e%d 'v%d'>" % (i, i) for i in range(9)) +
+             "".join("<!NOTATION n%d SYSTEM 's%d'>" % (i, i) for i in range(9)) + "]><r>&e3;&e1;&e8;</r>",
+             "<r " + " ".join("a%d='%d'" % (i, i) for i in range(12)) + " xmlns:p='urn:u1' xmlns:q='urn:u2' xmlns='urn:u3'/>"]
     texts = lims + texts
     p1 = lib.run_lines(h, [lib.req("parse", t) for t in texts] + [lib.req("print", t) for t in texts], timeout=600)
     p2 = lib.run_lines(h, [lib.req("parse", t) for t in texts] + [lib.req("print", t) for t in texts], timeout=600)
